@@ -197,28 +197,53 @@ def gen_coords(rng):
 
 def gen_idx(rng, big=False):
     pool = gen_pool(rng)
+    # every non-empty item gets a sibling of the SAME length with different bytes (one flipped bit) and the pool
+    # always has items of other lengths, so that a retain on an occupied coordinate meets all three situations:
+    # equal bytes / different bytes of equal length / different bytes of another length
+    sib = {}
+    for i in range(len(pool)):
+        if pool[i] and i not in sib:
+            t = list(pool[i]); k = rng.randrange(len(t)); t[k] ^= 1 << rng.randrange(8)
+            pool.append(t); sib[i] = len(pool) - 1; sib[len(pool) - 1] = i
+    if not sib:
+        pool += [[7, 7], [7, 6]]; sib[len(pool) - 2] = len(pool) - 1; sib[len(pool) - 1] = len(pool) - 2
     coords = gen_coords(rng)
     nc, n = len(coords), len(pool)
-    ops = []
+    ops, occupied = [], {}
     for _ in range(rng.randint(0, 40 if big else 14)):
         r = rng.random()
         ci = rng.randrange(nc)
-        if r < 0.32:
-            ops.append(f"R:{ci}:{rng.randrange(n)}")
+        if r < 0.36:
+            if occupied and rng.random() < 0.6:
+                ci = rng.choice(sorted(occupied)); cur = occupied[ci]
+                q = rng.random()
+                if q < 0.3:
+                    pi = cur                                             # equal bytes: idempotent
+                elif q < 0.7 and cur in sib:
+                    pi = sib[cur]                                        # different bytes, same length
+                else:
+                    oth = [j for j in range(n) if len(pool[j]) != len(pool[cur])]
+                    pi = rng.choice(oth) if oth else rng.randrange(n)   # different bytes, other length
+            else:
+                pi = rng.randrange(n)
+            occupied.setdefault(ci, pi)
+            ops.append(f"R:{ci}:{pi}")
+            if rng.random() < 0.35:
+                ops.append(f"L:{ci}")
         elif r < 0.52:
             ops.append(f"L:{ci}")
         elif r < 0.67:
-            big = rng.random() < 0.25      # u64-boundary arguments (20-digit numbers are slow to print in Coq)
-            off = rng.choice([0, 0, 1, 2, 5, 12, 13] + ([U64, U64 - 1, 1 << 63] if big else []))
-            ln = rng.choice([0, 1, 2, 3, 5, 12, 34] + ([U64, 1 << 63] if big else []))
-            mxb = rng.choice([0, 1, 2, 5, 64] + ([U64] if big else []))
+            big_arg = rng.random() < 0.25      # u64-boundary arguments (20-digit numbers are slow to print in Coq)
+            off = rng.choice([0, 0, 1, 2, 5, 12, 13] + ([U64, U64 - 1, 1 << 63] if big_arg else []))
+            ln = rng.choice([0, 1, 2, 3, 5, 12, 34] + ([U64, 1 << 63] if big_arg else []))
+            mxb = rng.choice([0, 1, 2, 5, 64] + ([U64] if big_arg else []))
             ops.append(f"G:{ci}:{off}:{ln}:{mxb}")
         elif r < 0.73:
             ops.append("B:" + href(rng, n))
         elif r < 0.80:
             ops.append(f"D:{ci}")
-        elif r < 0.85:
-            ops.append("F")
+        elif r < 0.86:
+            ops.append("F")                    # the index now faces an empty store (descriptors stay)
         else:
             ops.append(store_op(rng, n, False))
     mx = rng.choice([None, None, 3, 1 << 20])
